@@ -66,11 +66,18 @@ def build() -> Check:
     ck.analysed["callback_failure_statuses"] = failure
     for st in pm.statuses:
         def self_factory(it, state):
+            # built by its own __init__ (whatever it caches at construction time is then visible to the rule below)
+            init = cbc.methods["__init__"]
             o = Obj(cbc, label="callback")
-            o.fields["state"] = state
-            o.fields["operation_id"] = Sym("callback.operation_id", TypeRef(prim="str"))
-            o.fields["callback_id"] = Sym("callback.callback_id", TypeRef(prim="str"))
-            o.fields["serdes"] = Sym("callback.serdes", parse_annotation(prog, cbc.module, cbc.methods["__init__"].node.args.args[4].annotation))
+            kw = {}
+            for p in init.node.args.args[1:]:
+                if p.arg == "state":
+                    kw[p.arg] = state
+                elif p.arg == "serdes":
+                    kw[p.arg] = Sym("callback.serdes", parse_annotation(prog, cbc.module, p.annotation))
+                else:
+                    kw[p.arg] = Sym(f"callback.{p.arg}", TypeRef(prim="str"))
+            it.call_function(init, o, [], kw, None, None, None)
             return o
 
         traces = pm.run_function(res_fn, self_factory, None, cell=("Callback.result", st), status=st, optype="CALLBACK", faults=True)
@@ -79,6 +86,9 @@ def build() -> Check:
         for t in traces:
             if t.kinds("CKPT") or user_events(t, "user"):
                 bad.append(("result() must not checkpoint or run user code", t))
+            if not t.kinds("READ"):
+                bad.append(("result() does not consult the execution state when it is called: an outcome delivered after the Callback object was "
+                            "created (the state is refreshed by every checkpoint response) is not seen", t))
             des_failed = any(e.data.get("outcome") not in ("ok", None) for e in t.kinds("DES"))
             if st == "SUCCEEDED":
                 if t.outcome == "return":
